@@ -4,6 +4,7 @@ straight-line execution of step lists, the relation between the interpreter's
 environment and the SSA store, values of scalar types.
 -/
 import MpcVerif.Model.MpclLower
+import MpcVerif.Proofs.MpclSsaTy
 import MpcVerif.Proofs.Mpcl
 
 namespace Mpc.Mpcl.Ssa
@@ -147,38 +148,52 @@ theorem constArg_val (st : Nat → Nat) (n : Nat) (s : Bool) (w : Nat) (hn : n <
     have hlt := lt_constBits n
     exact ⟨constBits n, by simp [argVal, constWires_self, Nat.mod_eq_of_lt hlt], hlt, by omega, rfl, rfl⟩
 
-/-! ### Scalar types and values -/
+/-! ### Types and values -/
 
-theorem tyEq_eq {t t' : Ty} (h : tyEq t t' = true) : t = t' := by
-  cases t <;> cases t' <;> simp_all [tyEq]
+mutual
+theorem tyEq_eq : ∀ {t t' : Ty}, tyEq t t' = true → t = t'
+  | .bool, t', h => by cases t' <;> simp_all [tyEq]
+  | .int a, t', h => by cases t' <;> simp_all [tyEq]
+  | .uint a, t', h => by cases t' <;> simp_all [tyEq]
+  | .arr n e, t', h => by
+    cases t' with
+    | arr m e' =>
+      simp only [tyEq, Bool.and_eq_true, beq_iff_eq] at h
+      rw [h.1, tyEq_eq h.2]
+    | _ => simp [tyEq] at h
+  | .struct fs, t', h => by
+    cases t' with
+    | struct gs =>
+      simp only [tyEq] at h
+      rw [tyEqList_eq h]
+    | _ => simp [tyEq] at h
+theorem tyEqList_eq : ∀ {ts us : List Ty}, tyEqList ts us = true → ts = us
+  | [], [], _ => rfl
+  | [], _ :: _, h => by simp [tyEqList] at h
+  | _ :: _, [], h => by simp [tyEqList] at h
+  | t :: ts, u :: us, h => by
+    simp only [tyEqList, Bool.and_eq_true] at h
+    rw [tyEq_eq h.1, tyEqList_eq h.2]
+end
 
 theorem numTy_sbits {t : Ty} {s : Bool} {w : Nat} (h : numTy t = some (s, w)) : sbits t = some w := by
   cases t <;> simp_all [numTy, sbits]
+
+theorem sbits_bits {t : Ty} {w : Nat} (h : sbits t = some w) : t.bits = w := by
+  cases t <;> simp_all [sbits, Ty.bits]
+
+theorem numTy_bits {t : Ty} {s : Bool} {w : Nat} (h : numTy t = some (s, w)) : t.bits = w :=
+  sbits_bits (numTy_sbits h)
+
+theorem lowerBin_sbits {op : BinOp} {t : Ty} {sop : SOp} {tr : Ty} (h : lowerBin op t = some (sop, tr)) :
+    (∃ w, sbits t = some w) ∧ ∃ wr, sbits tr = some wr := by
+  cases t <;> cases op <;> simp [lowerBin] at h <;> (obtain ⟨_, h2⟩ := h; subst h2; simp [sbits])
 
 theorem decode_num {t : Ty} {s : Bool} {w a : Nat} (h : numTy t = some (s, w)) (ha : a < 2 ^ w) :
     t.decode a = .num s w a := by
   cases t <;> simp [numTy] at h <;> (obtain ⟨h1, h2⟩ := h; subst h1; subst h2; simp [Ty.decode, Nat.mod_eq_of_lt ha])
 
 theorem decode_bool (a : Nat) : Ty.decode .bool a = .bool (a % 2 == 1) := rfl
-
-theorem encode_decode {t : Ty} {w a : Nat} (h : sbits t = some w) (ha : a < 2 ^ w) :
-    (t.decode a).encode = (a, w) := by
-  cases t <;> simp [sbits] at h
-  · subst h
-    have : a = 0 ∨ a = 1 := by omega
-    rcases this with rfl | rfl <;> simp [Ty.decode, Val.encode]
-  · subst h; simp [Ty.decode, Val.encode, Nat.mod_eq_of_lt ha]
-  · subst h; simp [Ty.decode, Val.encode, Nat.mod_eq_of_lt ha]
-
-theorem hasTy_decode {t : Ty} {w a : Nat} (h : sbits t = some w) : (t.decode a).hasTy t = true := by
-  cases t <;> simp [sbits] at h
-  · simp [Ty.decode, Val.hasTy]
-  · subst h; simp [Ty.decode, Val.hasTy, Nat.mod_lt _ (two_pow_pos _)]
-  · subst h; simp [Ty.decode, Val.hasTy, Nat.mod_lt _ (two_pow_pos _)]
-
-theorem sameShape_decode {t : Ty} {w : Nat} (a b : Nat) (h : sbits t = some w) :
-    (t.decode a).sameShape (t.decode b) = true := by
-  cases t <;> simp [sbits] at h <;> simp [Ty.decode, Val.sameShape]
 
 theorem ofInt_lt (w : Nat) (i : Int) : ofInt w i < 2 ^ w := by
   rw [ofInt_eq]; exact (BitVec.ofInt w i).isLt
@@ -196,7 +211,7 @@ theorem toInt_small {w a : Nat} (h : 2 * a < 2 ^ w) : toInt w a = (a : Int) := b
 
 /-- The binding `b` denotes the value `v` in the store `st`. -/
 def BindRel (st : Nat → Nat) : Bind → Val → Prop
-  | .val id t, v => ∃ w, sbits t = some w ∧ st id < 2 ^ w ∧ v = t.decode (st id)
+  | .val id t, v => st id < 2 ^ t.bits ∧ v = t.decode (st id)
   | .konst n, v => n < 2 ^ 31 ∧ v = .num true 32 n
 
 def ScopeRel (st : Nat → Nat) : NScope → Scope → Prop
@@ -290,9 +305,9 @@ theorem BindRel.frame {k : Nat} {st st' : Nat → Nat} {b : Bind} {v : Val} (h :
     (hb : BelowB k b) (hf : Frame k st st') : BindRel st' b v := by
   cases b with
   | val id t =>
-    obtain ⟨w, h1, h2, h3⟩ := h
+    obtain ⟨h2, h3⟩ := h
     have e := hf id hb
-    exact ⟨w, h1, by rw [e]; exact h2, by rw [e]; exact h3⟩
+    exact ⟨by rw [e]; exact h2, by rw [e]; exact h3⟩
   | konst n => exact h
 
 theorem ScopeRel.frame {k : Nat} {st st' : Nat → Nat} : ∀ {s : NScope} {sc : Scope}, ScopeRel st s sc →
